@@ -16,7 +16,7 @@ out = ["# Seeded property-breaking changes and what the checks report", "",
        "Every change below was written by an independent sub-agent (property text + private worktree only), compiles,",
        "passes the repository's 59 tests, and comes with a demonstration that fails with the change and passes without it;",
        "all of that was re-run here before the change was kept (`meta.json` has the commands and outcomes).",
-       "`-1/-2` = first round, `-3/-4` = second round (asked to avoid the first round's ideas), `-5/-6` = third, `-7/-8` = fourth, `-9/-10` = fifth, `-11/-12` = sixth round",
+       "`-1/-2` = first round, `-3/-4` = second round (asked to avoid the first round's ideas), `-5/-6` = third, `-7/-8` = fourth, `-9/-10` = fifth, `-11/-12` = sixth, `-13/-14` = seventh round",
        "(each round was given the ideas of all earlier rounds as a do-not-reuse list).",
        "Column *quick checks* = checks whose quick tier exits 1 with a VIOLATION line when the patch is applied to /repo",
        "(final state of the harness; `OWN_ONLY=1 tools/run_seeded.sh` reproduces the column: it runs the check of the property the change was", "written against; the two C04 entries were run by hand).", "",
